@@ -174,3 +174,165 @@ func VerifH_C16_useReleaseHistory() {
 	}
 	vr.Reach("end")
 }
+
+// verifImages: the registry model of the getLayer harness. Two references of one repository (same name, different
+// tags) with different layer sets; layer B is shared.
+//
+//	a:1 = [A (toc 1), B (toc 2)]      a:2 = [B (toc 2), C (toc 3)]
+var verifLayerC = digest.Digest("sha256:cccccccccccccccccccccccccccccccccccccccccccccccccccccccccccccccc")
+var verifTOCC = digest.Digest("sha256:3333333333333333333333333333333333333333333333333333333333333333")
+
+type verifStoredRef struct {
+	manifest ocispec.Manifest
+	config   ocispec.Image
+}
+
+// C16/H2: lookups through the real getLayer (goroutine per layer, select over result/error/timeout/all-done
+// channels), the real refPool.loadRef / use / release / LRU and the real release bookkeeping, over histories of
+// lookup+use / release on two references of one repository. Layers that cannot be resolved (registry error, not
+// eStargz) are a fixed symbolic subset per path. Oracle: a lookup succeeds iff the image has a resolvable layer
+// with that TOC digest - whatever was used and released before, whatever the sibling layers do, whichever order
+// the goroutines run in - and a lookup of any other digest fails.
+func VerifH_C16_getLayerLookup() {
+	steps := 4
+	if vr.Tier() > 0 {
+		steps = 5
+	}
+	var refs []reference.Spec
+	for _, s := range []string{"docker.io/library/a:1", "docker.io/library/a:2"} {
+		r, err := reference.Parse(s)
+		vr.Assert(err == nil, "refs-parse")
+		refs = append(refs, r)
+	}
+	layers := []digest.Digest{verifLayerDigests[0], verifLayerDigests[1], verifLayerC}
+	tocs := []digest.Digest{verifTOCDigests[0], verifTOCDigests[1], verifTOCC}
+	images := [][]int{{0, 1}, {1, 2}}
+	// unresolvable layers: fixed per path (a registry that answers differently from one attempt to the next is
+	// outside the claim: resolution results are memoised by design until the image is released)
+	broken := []bool{false, false, false}
+	if b := vr.Choice("unresolvable-layer", 4); b < 3 {
+		broken[b] = true
+	}
+
+	vr.EngineOnlyReplay("layer.Resolver is a concrete struct and refPool talks to a registry: both are replaced inside the engine and cannot be injected natively")
+	vr.Replace("(*github.com/containerd/stargz-snapshotter/fs/layer.Resolver).Resolve", func(r *layer.Resolver, ctx context.Context, hosts source.RegistryHosts, refspec reference.Spec, desc ocispec.Descriptor, esgzOpts ...metadata.Option) (layer.Layer, error) {
+		for k, d := range layers {
+			if d == desc.Digest {
+				if broken[k] {
+					return nil, errors.New("verif: registry error")
+				}
+				return &verifLayer{dgst: d, toc: tocs[k]}, nil
+			}
+		}
+		return nil, errors.New("verif: unknown layer")
+	})
+	fetches := 0
+	vr.Replace("(*github.com/containerd/stargz-snapshotter/store.refPool).fetchManifestAndConfig", func(p *refPool, ctx context.Context, refspec reference.Spec) (ocispec.Manifest, ocispec.Image, error) {
+		fetches++
+		for ri, r := range refs {
+			if r.String() == refspec.String() {
+				var m ocispec.Manifest
+				var c ocispec.Image
+				for _, li := range images[ri] {
+					m.Layers = append(m.Layers, ocispec.Descriptor{Digest: layers[li]})
+					c.RootFS.DiffIDs = append(c.RootFS.DiffIDs, layers[li])
+				}
+				return m, c, nil
+			}
+		}
+		return ocispec.Manifest{}, ocispec.Image{}, errors.New("verif: unknown image")
+	})
+	// the pool's files: a path-keyed store; the paths are computed by the real manifestFile/configFile/metadataDir
+	files := map[string]verifStoredRef{}
+	vr.Replace("(*github.com/containerd/stargz-snapshotter/store.refPool).readManifestAndConfig", func(p *refPool, refspec reference.Spec) (ocispec.Manifest, ocispec.Image, error) {
+		mf, ok := files[p.manifestFile(refspec)]
+		if !ok {
+			return ocispec.Manifest{}, ocispec.Image{}, errors.New("verif: no such file")
+		}
+		cf, ok := files[p.configFile(refspec)]
+		if !ok {
+			return ocispec.Manifest{}, ocispec.Image{}, errors.New("verif: no such file")
+		}
+		return mf.manifest, cf.config, nil
+	})
+	vr.Replace("(*github.com/containerd/stargz-snapshotter/store.refPool).writeManifestAndConfig", func(p *refPool, refspec reference.Spec, manifest ocispec.Manifest, config ocispec.Image) error {
+		files[p.manifestFile(refspec)] = verifStoredRef{manifest: manifest}
+		files[p.configFile(refspec)] = verifStoredRef{config: config}
+		return nil
+	})
+	pool := &refPool{path: "/pool", refcounter: map[string]*releaser{}}
+	pool.cache = cacheutil.NewLRUCache(refCacheEntry)
+	pool.cache.OnEvicted = func(key string, value any) {
+		dir := pool.metadataDir(value.(reference.Spec))
+		for p := range files {
+			if len(p) > len(dir) && p[:len(dir)] == dir {
+				delete(files, p)
+			}
+		}
+	}
+	m := &LayerManager{
+		refPool: pool, noprefetch: true, noBackgroundFetch: true,
+		resolveLock: new(namedmutex.NamedMutex),
+		layer:       map[string]map[string]layer.Layer{},
+		refcounter:  map[string]map[string]int{},
+	}
+	ctx := context.Background()
+	uses := map[string]int{}
+	key := func(ri, ti int) string { return refs[ri].String() + "|" + tocs[ti].String() }
+	if vr.Tier() > 0 && vr.Bool("interleave") {
+		vr.Interleave(3)
+	}
+	for s := 0; s < steps; s++ {
+		// the operations possible now: 8 lookups, plus one release per pair in use
+		type pair struct{ ri, ti int }
+		var inUse []pair
+		for r := 0; r < 2; r++ {
+			for t := 0; t < 3; t++ {
+				if uses[key(r, t)] > 0 {
+					inUse = append(inUse, pair{r, t})
+				}
+			}
+		}
+		op := vr.Choice("op", 8+len(inUse))
+		if op >= 8 {
+			p := inUse[op-8]
+			n, err := m.release(ctx, refs[p.ri], tocs[p.ti])
+			uses[key(p.ri, p.ti)]--
+			vr.Assert(err == nil && n == uses[key(p.ri, p.ti)], "release-count-matches-and-never-negative")
+			continue
+		}
+		ri, ti := op/4, op%4 // toc 3 = a digest no layer has
+		want := verifUnknownTOC
+		expect := false
+		if ti < 3 {
+			want = tocs[ti]
+			for _, li := range images[ri] {
+				if li == ti && !broken[li] {
+					expect = true
+				}
+			}
+		}
+		l, err := m.getLayer(ctx, refs[ri], want)
+		if expect {
+			vr.Assert(err == nil, "lookup-succeeds-for-a-resolvable-layer-of-the-image")
+			if err == nil {
+				vr.Assert(l != nil && l.Info().TOCDigest == want, "lookup-returns-the-layer-with-that-toc")
+				vr.Assert(l.(*verifLayer).done == 0, "lookup-never-returns-a-released-layer")
+				n := m.use(refs[ri], want)
+				uses[key(ri, ti)]++
+				vr.Assert(n == uses[key(ri, ti)], "use-count-matches")
+			}
+		} else {
+			vr.Assert(err != nil, "lookup-of-any-other-digest-fails")
+		}
+		for r := 0; r < 2; r++ {
+			for t := 0; t < 3; t++ {
+				if uses[key(r, t)] > 0 {
+					got := m.getCachedLayer(refs[r], tocs[t])
+					vr.Assert(got != nil && got.(*verifLayer).done == 0, "layer-in-use-never-released")
+				}
+			}
+		}
+	}
+	vr.Reach("end")
+}
